@@ -130,7 +130,7 @@ func stockStop(p *bool) { *p = true }
 func runStock(rc *RunCtx) {
 	tp := rc.Tape
 	sim := rc.Sim
-	rc.DigestUnstable = true // copystructure / reflect map order inside encrypt decides how many lock steps a Process takes first
+	// (payloads of this scenario hold no string-valued maps, so the order of the filter's lock steps is fixed)
 	dir, err := os.MkdirTemp("", "simstock-")
 	if err != nil {
 		panic(err)
